@@ -193,6 +193,14 @@ def mergeBaseline (declared bf : List (Int × Fml)) : List (Int × Fml) :=
   | [] => bf
   | (d0, _) :: _ => bf.filter (fun p => p.1 < d0) ++ declared
 
+/-- the `end` attribute: a declared date wins; a class that declares `end = ""` (ordinal 0 in the
+    protocol) REDEFINES it to "no end" (`set_end` returns `None`, and `Variable.set` inherits only
+    when the attribute is absent); absent, it is inherited -/
+def declaredEnd (declared inherited : Option Int) : Option Int :=
+  match declared with
+  | some e => if e = 0 then none else some e
+  | none => inherited
+
 /-- `required=True` attribute: declared, else inherited, else `ValueError` -/
 def requiredAttr (what : String) (declared : Option String) (inherited : Option String) :
     Except String String :=
@@ -218,10 +226,7 @@ def constructWith (cls : ClassDef) (bid : Option Oid) (b : Option VarObj) : Exce
   match requiredAttr "definition_period" cls.defPeriod (b.map (·.defPeriod)) with
   | .error e => .error e
   | .ok dp =>
-  let endDate : Option Int :=
-    match cls.endDate with
-    | some e => some e
-    | none => match b with | some bv => bv.endDate | none => none
+  let endDate : Option Int := declaredEnd cls.endDate (match b with | some bv => bv.endDate | none => none)
   let si : Option String :=
     match cls.setInput with
     | some s => some s
